@@ -2,7 +2,7 @@ import svlib
 
 SPEC = dict(
     id="C17", level="other",
-    lean_targets=[], audit=None, theorems=[],
+    lean_targets=["SwayVerif.Props.C17"], audit="SwayVerif/Audit/C17.lean", theorems=["C17_partial"],
     steps=[dict(bin="sv_c17", area="c17", n_quick=220, n_thorough=4000, corpus="corpus/c17",
                 dist_keys=("outcome", "kind"), timeout=3400,
                 nontrivial=lambda case, impl, kv: kv.get("outcome") in ("ok", "err"))],
